@@ -140,6 +140,16 @@ func TestC04Sys(t *testing.T) {
 		pool := c04KeyPool(r, maxKeys)
 		sc.ctxMD = c04MDFrom(r, pool, maxKeys)
 		if r.Intn(3) == 0 {
+			// every key of the pool: exactly maxKeys distinct keys (16 at the upper end of the property's range)
+			sc.ctxMD = metadata.MD{}
+			for _, k := range pool {
+				if strings.HasSuffix(strings.ToLower(k), "-bin") {
+					sc.ctxMD[k] = append(sc.ctxMD[k], c04BinValue(r))
+				} else {
+					sc.ctxMD[k] = append(sc.ctxMD[k], randTextValue(r))
+				}
+			}
+		} else if r.Intn(3) == 0 {
 			sc.ctxMD = nil // nothing attached through the context
 		}
 		if r.Intn(2) == 0 && len(pool) > 0 {
@@ -349,7 +359,8 @@ func TestC04Sys(t *testing.T) {
 			} else if len(e.GetHeader().GetHeaders()) > 0 {
 				later = true
 			}
-			if e.GetTrailer() != nil {
+			if e.GetTrailer() != nil && e.GetReset_() == nil && e.GetStatus() != nil || (!sc.k.stream && e.GetTrailer() != nil) {
+				// the RPC's own final envelope (a reset for a late client message also carries an empty trailer)
 				trlWire = e.GetTrailer().GetMetadata()
 			}
 		}
